@@ -216,6 +216,10 @@ func (r *run) doTReply(st step) {
 		sz = 65507
 	}
 	fits := ss+hdrLen(s.fam)+sz+16 <= 65507
+	rdLen := sz // what the proxy can read of it: its buffer is 64 KiB minus the room for salt and address
+	if lim := 65536 - ss - 19; rdLen > lim {
+		rdLen = lim
+	}
 	payload := make([]byte, sz)
 	r.rng.Read(payload)
 	r.nRp++
@@ -223,7 +227,7 @@ func (r *run) doTReply(st step) {
 	r.replies[sid] = replyInfo{a: ai.a, from: s, payload: payload}
 	nPktT := r.rec.count(func(e mEvent) bool { return e.M == "PktT" && e.A == ai.a })
 	t0 := time.Now()
-	r.tr.Emit(map[string]any{"ev": "SSend", "id": sid, "src": st.Src, "a": ai.a, "sz": sz, "nw": ai.nw, "fits": fits, "t": r.ms(t0), "cls": st.Cls})
+	r.tr.Emit(map[string]any{"ev": "SSend", "id": sid, "src": st.Src, "a": ai.a, "sz": sz, "rd": rdLen, "nw": ai.nw, "fits": fits, "t": r.ms(t0), "cls": st.Cls})
 	if _, err := s.c.WriteToUDP(payload, r.natAddrFor(s, ai.natPort)); err != nil {
 		r.notes = append(r.notes, fmt.Sprintf("sender %s: %v", s.name, err))
 	}
@@ -279,6 +283,8 @@ type endInfo struct {
 	Layout         string   `json:"layout"`
 	Prom           *promCmp `json:"prom,omitempty"`
 	ViaManager     bool     `json:"via_manager"`
+	DebugLog       bool     `json:"debug_log"`
+	V6             bool     `json:"v6_client"`
 	LiveAtClose    int      `json:"live_at_close"` // associations not yet removed when the listener was closed
 	Validator      string   `json:"validator"`
 }
